@@ -57,6 +57,11 @@ CLAIMED = {
         text="TLC explores every interleaving of the latch protocol (4 participants mixing count_down/arrive_and_wait/wait) and of the barrier's tournament arrival for 3, 4 (thorough: 5) participants x 2 phases with any start node, proving no early return/departure, completion exactly once per phase and termination, and that the two seeded variants fail; real histories (participants on tasks and OS threads, more participants than workers, drops, throwing call_once bodies, simultaneous arrive_and_wait storms) must be behaviours of LbeoAbs, whose quiescence rule rejects a waiter stuck after the count reached zero / the phase advanced",
         note="sequential consistency; sampled schedules for the real code; barrier expected_adjustment (drops) only in the abstract spec and traces, not in BarrierImpl",
         design="5/C09"),
+    "C19": dict(
+        technique="TLA+ fine-grained spec PuSuspendImpl (running/pre_sleep/sleeping, pu mutex, notify loop, select_active_pu) model-checked by TLC + abstract spec PuAbs with TLC trace validation of suspend/resume/submit histories from a real second pool",
+        text="TLC proves on PuSuspendImpl that nothing is queued on a PU after it went to sleep, and that suspend and resume calls return and all work completes (fair), and that a single-notify resume fails; real histories on a 3-worker pool (6 policies, elastic or not) with PU and pool suspension from OS threads and default-pool tasks, error_code and throwing forms, refusal cases and concurrent hinted submissions must be behaviours of PuAbs: refused calls leave the pool running, no task body runs on a worker between its suspend return and resume call, and after the final resume every task ran exactly once",
+        note="sequential consistency; sampled schedules; work enqueued on a PU while it falls asleep may wait for the resume (allowed by the property text)",
+        design="5/C19"),
 }
 
 NOT_YET = {}
